@@ -341,4 +341,22 @@ PROPS.update({
              'last line, or on a line with non-ASCII characters; distinct = distinct (text, request, position)',
         explanation='D10 (pos_to_offset off-by-one / non-boundary) repaired by a fix: commit.',
     ),
+    'C34': dict(
+        level='proof',
+        level_text='Rocq theorems re-checked against terms REGENERATED from the current parol.par / parol_ls.par / generated parser sources on '
+                   'every run: the two EBNF grammars generate the same language over token kinds (C34_par_grammars_equiv, by the proved '
+                   'equivalence checker: inline ProductionLHS, flatten single-alternative groups, isomorphism up to renaming and order of '
+                   'alternatives) and the two scanner tables tokenise identically under the longest-match rule (C34_scanners_same_tokens: '
+                   'same patterns, reordered entries never overlap). Tie to the code: the translator itself, plus both REAL parsers run on '
+                   'corpus, generated, token-mutated and token-soup texts (same verdict).',
+        level_note='Trusted: Coq kernel, the Python translator (small PAR reader; terminals identified by expanded pattern), regex-syntax for the '
+                   'scanner patterns, the cfg-guarded parse-only batch entry of parol-ls. That the generated parsers implement their '
+                   'grammars is C01; that scnr2 implements longest match is C13.',
+        technique='Rocq proof by verified equivalence checkers evaluated (vm_compute) on grammar/scanner terms regenerated from the sources + differential run of both real parsers',
+        custom=lschecks.c34,
+        rule='corpus .par files + generated grammars, 2-3 token-level mutants of each valid text (delete/duplicate/replace/insert/swap), and '
+             'random sequences over the PAR token vocabulary; non-trivial = text with >= 10 significant tokens or rejected by both; '
+             'distinct = distinct text',
+        explanation='A change to either .par file or either generated parser regenerates Gen/ParGrammars.v and re-runs both theorems.',
+    ),
 })
